@@ -329,7 +329,8 @@ def run_cases(cases, cap=None, progress=None, max_violations=12):
                 state["done"] += 1
                 running.discard(c)
                 if not c.skipped and classify(c)[0] != "ok":
-                    state["viol"] += 1
+                    # a confirmed hang costs two full timeouts: it counts for three
+                    state["viol"] += 3 if classify(c)[0] == "hang" else 1
                     if state["viol"] >= max_violations and not state["stop"]:
                         state["stop"] = True
                         log("fail-fast: %d violating cases, stopping the sweep" % state["viol"])
